@@ -399,7 +399,7 @@ def impl_states(out):
         reg = "/".join(x.replace("=", ":", 1) for x in mr.group(1).split())
         named = ",".join(sorted(x.split("=")[0] for x in mn.group(1).split() if x.endswith("=1")))
         res.append("%s cv=%s bias=%s reg=%s named=%s act=%s traj=%s restart=%s crash=0" % (
-            verdict, mo.group(1).rstrip(","), mo.group(2).rstrip(","), reg, named, ",".join(ma.group(1).split()), mg.group(1), mg.group(2)))
+            verdict, mo.group(1).rstrip(","), mo.group(2).rstrip(","), reg, named, ",".join(sorted(ma.group(1).split())), mg.group(1), mg.group(2)))
     return res
 
 
@@ -407,9 +407,10 @@ def norm_model(line):
     """model output -> list of state strings, named groups sorted"""
     out = []
     for s in line.split(" ; "):
-        m = re.search(r" named=(\S*) act=", s)
+        m = re.search(r" named=(\S*) act=(\S*) traj=", s)
         if m:
-            s = s.replace(" named=%s act=" % m.group(1), " named=%s act=" % ",".join(sorted(x for x in m.group(1).split(",") if x)))
+            s = s.replace(" named=%s act=%s traj=" % (m.group(1), m.group(2)), " named=%s act=%s traj=" % (
+                ",".join(sorted(x for x in m.group(1).split(",") if x)), ",".join(sorted(x for x in m.group(2).split(",") if x))))
         out.append(s)
     return out
 
